@@ -24,6 +24,10 @@
 //!       `FriProof::read_from_bytes`, `DefaultVerifierChannel::new`, `FriVerifier::new`, `verify`;
 //!       output `<parse>[ <chan-err | new-err:.. | err:.. | ok | panic>]` (not modelled).
 //!
+//!   frih x <label> <log2 domain> <folding> <layers> <commitments> <rows>
+//!       a hand-assembled FriProof (zero elements, empty node lists) with that many layers through
+//!       `DefaultVerifierChannel::new` / `FriVerifier::new` with that many layer commitments: schedules no honest prover
+//!       can produce (more layers than the domain can be folded; log2(domain) not a multiple of log2(folding)).
 //!   mrk x <label> <hasher> <log2 leaves> <i.j.k opened indexes> <depth delta> <edits>
 //!       the stand-alone batch Merkle entry points on the serialized nodes of an honest opening after the edits:
 //!       `BatchMerkleProof::deserialize` (depth = log2 leaves + delta), `get_root`, `MerkleTree::verify_batch`,
@@ -284,6 +288,12 @@ fn acceptable(mode: &str, vb: &Base, proof: &Proof) -> AcceptableOptions {
 
 /// the policies every mutant family is run under (the first one is the model-compared one)
 const POLICIES: &[&str] = &["c", "p", "o", "om", "c=", "c+", "p=", "p+", "c96", "p64", "c4294967295", "p4294967295", "o2", "oe"];
+
+fn ncols_g<B: GField, H: ElementHasher<BaseField = B> + Send + Sync>(desc: &Arc<AirDesc>, pubs: &[u128], ti: &TraceInfo, opts: &ProofOptions) -> usize {
+    let values: Vec<B> = pubs.iter().map(|v| B::from_word(*v % B::MOD)).collect();
+    let air = GenericAir::<B>::new(ti.clone(), GenPub { desc: desc.clone(), values }, opts.clone());
+    air.context().num_constraint_composition_columns()
+}
 
 fn modulus_bytes(field: FieldId) -> Vec<u8> {
     match field {
@@ -1279,7 +1289,82 @@ fn exec_fri(t: &[&str]) -> Outcome {
     o
 }
 
+/// `frih x <label> <log2 domain> <folding> <layers> <commitments> <rows>`: a hand-assembled FriProof (zero elements,
+/// empty node lists, one-element remainder) through `FriProof::read_from_bytes`, `DefaultVerifierChannel::new` and
+/// `FriVerifier::new` (64-bit field, Blake3_256); no honest prover is needed, so impossible schedules are reachable
+fn exec_frih(t: &[&str]) -> Outcome {
+    use winter_fri::{DefaultVerifierChannel, FriOptions, FriProof, FriVerifier};
+    use winter_utils::Deserializable;
+    type B = f64::BaseElement;
+    type H = Blake3_256<B>;
+    if t.len() != 7 {
+        return Outcome::ok("bad-op");
+    }
+    let nums: Vec<usize> = match t[2..7].iter().map(|x| x.parse::<usize>()).collect::<Result<Vec<_>, _>>() {
+        Ok(v) => v,
+        Err(_) => return Outcome::ok("bad-op"),
+    };
+    let (logd, folding, layers, roots, rows) = (nums[0], nums[1], nums[2], nums[3], nums[4]);
+    if logd > 20 || ![2, 4, 8, 16].contains(&folding) || layers > 255 || roots > 300 || rows > 16 {
+        return Outcome::ok("bad-op");
+    }
+    let mut bytes = vec![layers as u8];
+    for _ in 0..layers {
+        let v = vec![0u8; rows * folding * 8];
+        bytes.extend_from_slice(&(v.len() as u32).to_le_bytes());
+        bytes.extend_from_slice(&v);
+        bytes.extend_from_slice(&1u32.to_le_bytes());
+        bytes.push(0);
+    }
+    bytes.extend_from_slice(&8u16.to_le_bytes());
+    bytes.extend_from_slice(&[0u8; 8]);
+    bytes.push(0);
+    let mut o = Outcome::default();
+    let r = guarded(|| -> String {
+        let proof = match FriProof::read_from_bytes(&bytes) {
+            Ok(p) => p,
+            Err(_) => return "err".into(),
+        };
+        let commitments = vec![<H as Hasher>::Digest::default(); roots];
+        let mut channel = match DefaultVerifierChannel::<B, H>::new(proof, commitments, 1 << logd, folding) {
+            Ok(c) => c,
+            Err(_) => return "ok chan-err".into(),
+        };
+        let mut coin = DefaultRandomCoin::<H>::new(&[]);
+        // blowup 2, remainder degree 0: the options for which the schedule is longest
+        match FriVerifier::new(&mut channel, &mut coin, FriOptions::new(2, folding, 0), (1usize << logd) / 2 - 1) {
+            Ok(_) => "ok chan new".into(),
+            Err(_) => "ok chan new-err".into(),
+        }
+    });
+    match r {
+        Ok(s) => o.out = s,
+        Err(info) => {
+            o.out = "ok panic".into();
+            o = o.fail(format!("c06.fri.panic@{}", panic_loc(&info)), format!("hand-assembled FRI proof: {}; input {}", info, short_hex(&bytes)));
+        },
+    }
+    o
+}
+
 fn gen_fri(emit: &mut dyn FnMut(String), rng: &mut Rng, tier: Tier) {
+    // hand-assembled proofs: every layer count from 0 to two beyond the number of possible foldings, with the matching
+    // number of commitments (and one less / more), for domains whose log is and is not a multiple of log2(folding)
+    for logd in 1usize..=9 {
+        for folding in [2usize, 4, 8, 16] {
+            let possible = logd / folding.ilog2() as usize;
+            for layers in 0..=possible + 2 {
+                for roots in [layers + 1, layers, layers + 2] {
+                    for rows in [1usize, 2] {
+                        if rows == 2 && roots != layers + 1 {
+                            continue;
+                        }
+                        emit(format!("frih x hand {} {} {} {} {}", logd, folding, layers, roots, rows));
+                    }
+                }
+            }
+        }
+    }
     let thorough = tier == Tier::Thorough;
     for (log_n, blowup, folding, remdeg, nq) in [(4u32, 4usize, 2usize, 1usize, 3usize), (5, 2, 4, 1, 2), (4, 8, 4, 3, 4), (6, 2, 2, 7, 2)] {
         let (bytes, _, _, _) = match guarded(|| fri_base(log_n, blowup, folding, remdeg, nq)) {
@@ -1969,6 +2054,115 @@ fn gen_struct(g: &mut Gen, rng: &mut Rng, b: &Base, tier: Tier, others: &[Arc<Ba
     }
 }
 
+/// HAND-ASSEMBLED proofs (HARDENING follow-up): for option / trace-length tuples - including the "overshoot" tuples for
+/// which no honest proof exists - a proof whose every component has exactly the size the parsers expect (zero
+/// elements, empty Merkle node lists), with every FRI layer count from 0 to two beyond the number of times the domain
+/// can be folded, the layers sized for their depth and the commitment count matching. The loops of the parsers whose
+/// iteration count derives from several header fields (FRI layers: log2(trace length x blowup) / log2(folding) against
+/// (remainder degree + 1) x blowup; table rows x columns; frame width) are driven to their maximum, one beyond, and
+/// to the tuples where floor and ceiling of the quotient differ.
+fn gen_hand(g: &mut Gen, rng: &mut Rng, b: &Base, tier: Tier) {
+    let name = b.cfg.name;
+    let sp0 = match SP::parse(&b.bytes) {
+        Some(x) => x,
+        None => return,
+    };
+    let dg = b.cfg.hash.digest_bytes();
+    let eb = elem_bytes(b.cfg.field);
+    let main_w = sp0.ti[0] as usize;
+    let aux_w = sp0.ti[1] as usize;
+    let build = |logn: u32, nq: u8, blowup: u8, ext: u8, folding: u8, remdeg: u8, uniq: u8, layers: usize, roots: usize, rows_per_layer: usize, main: usize, aux: usize| -> Option<Vec<u8>> {
+        let ee = eb * ext as usize;
+        let n = 1usize << logn;
+        let ti = guarded(|| TraceInfo::new_multi_segment(main, aux, if aux > 0 { sp0.ti[2] as usize } else { 0 }, n, vec![])).ok()?;
+        let fx = match ext {
+            1 => FieldExtension::None,
+            2 => FieldExtension::Quadratic,
+            _ => FieldExtension::Cubic,
+        };
+        let po = guarded(|| ProofOptions::new(nq as usize, blowup as usize, 0, fx, folding as usize, remdeg as usize)).ok()?;
+        let ncols = guarded(|| dispatch!(b.cfg.field, b.cfg.hash, ncols_g, (&b.desc, &b.pubs, &ti, &po))).ok()?;
+        let mut x = sp0.clone();
+        x.ti = [main as u8, aux as u8, if aux > 0 { sp0.ti[2] } else { 0 }, logn as u8];
+        x.meta = vec![];
+        x.opts = [nq, blowup, 0, ext, folding, remdeg];
+        x.uniq = uniq;
+        let segs = if aux > 0 { 2 } else { 1 };
+        x.commitments = vec![0x33u8; (segs + 1 + roots) * dg];
+        x.tq = vec![QS { values: vec![0u8; uniq as usize * main * eb], paths: vec![0] }];
+        if aux > 0 {
+            x.tq.push(QS { values: vec![0u8; uniq as usize * aux * ee], paths: vec![0] });
+        }
+        x.cq = QS { values: vec![0u8; uniq as usize * ncols * ee], paths: vec![0] };
+        x.ood_trace = [&[2u8][..], &vec![0u8; (main + aux) * 2 * ee][..]].concat();
+        x.ood_lagrange = vec![0];
+        x.ood_evals = vec![0u8; ncols * ee];
+        x.layers = (0..layers).map(|_| QS { values: vec![0u8; rows_per_layer * folding as usize * ee], paths: vec![0] }).collect();
+        x.remainder = vec![0u8; ee];
+        x.partitions = 0;
+        x.gkr = None;
+        Some(x.to_bytes())
+    };
+    let ext0 = b.opts.ext;
+    let mut k = 0usize;
+    for logn in 3u32..=6 {
+        for blowup in [2u8, 4, 8] {
+            for folding in [2u8, 4, 8, 16] {
+                for remdeg in [0u8, 1, 3, 7] {
+                    let lde = (1usize << logn) * blowup as usize;
+                    let max_rem = (remdeg as usize + 1) * blowup as usize;
+                    // what num_fri_layers asks for, and how often the domain can really be folded
+                    let mut expected = 0;
+                    let mut d = lde;
+                    while d > max_rem {
+                        d /= folding as usize;
+                        expected += 1;
+                    }
+                    let possible = (lde.ilog2() / (folding as u32).ilog2()) as usize;
+                    let overshoot = expected > possible || lde.ilog2() % (folding as u32).ilog2() != 0;
+                    for layers in 0..=possible + 2 {
+                        // quick tier: every count for the tuples where floor and ceiling differ, the expected count
+                        // and its neighbours for the others
+                        let near = layers + 1 >= expected && layers <= expected + 1;
+                        if !(overshoot || near || tier == Tier::Thorough) {
+                            continue;
+                        }
+                        k += 1;
+                        for (roots, rows) in [(layers + 1, 1usize), (layers + 1, 2), (layers, 1), (layers + 2, 1)] {
+                            if rows == 2 && !overshoot || roots != layers + 1 && layers != expected {
+                                continue;
+                            }
+                            if let Some(bytes) = build(logn, 1, blowup, ext0, folding, remdeg, 1, layers, roots, rows, main_w, aux_w) {
+                                let lab = if overshoot { "hand:fri-overshoot" } else { "hand:fri-layers" };
+                                g.mutant(lab, b, name, &bytes, layers == expected || k % 3 == 0);
+                            }
+                        }
+                    }
+                }
+            }
+        }
+    }
+    // table and frame loops: rows x columns at their limits (the AIR of the base configuration keeps its own widths
+    // when it has an auxiliary segment; a single-segment AIR takes the width from the proof)
+    if aux_w == 0 {
+        for main in [1usize, 2, 127, 128, 254, 255] {
+            for uniq in [1u8, 2, 254, 255] {
+                if let Some(bytes) = build(3, 255.min(uniq.max(1)).min(15), b.opts.blowup as u8, ext0, b.opts.folding as u8, b.opts.remainder as u8, uniq, 0, 1, 1, main, 0) {
+                    // the FRI part is that of the base proof, so that the count check passes
+                    if let Some(mut x) = SP::parse(&bytes) {
+                        x.layers = sp0.layers.clone();
+                        x.remainder = sp0.remainder.clone();
+                        x.commitments = vec![0x33u8; (2 + sp0.layers.len() + 1) * dg];
+                        x.opts[0] = sp0.opts[0];
+                        g.mutant("hand:table-limits", b, name, &x.to_bytes(), main < 3 || uniq < 3);
+                    }
+                }
+            }
+        }
+    }
+    let _ = rng;
+}
+
 /// boundary values of the single-byte fields of the context (HARDENING 1: every constant the readers, the
 /// constructors, the security estimate and the query-count check compare against, and its neighbours)
 fn ctx_values(name: &str, orig: u8, lde: usize) -> Vec<u8> {
@@ -2265,6 +2459,9 @@ fn gen_for(g: &mut Gen, rng: &mut Rng, b: &Base, tier: Tier, small: bool, others
     }
     // 5g. consistent structural mutants, context pairs (hardening)
     gen_struct(g, rng, b, tier, others);
+    if ["fib8", "sq8rp", "fib62q", "cube128", "auxw", "jive3"].contains(&name) {
+        gen_hand(g, rng, b, tier);
+    }
     gen_ctx_pairs(g, rng, b, tier, &flds, thorough || name == "fib8" || name == "sq8rp" || name == "lag8");
     // 5f. random multi-byte damage: insertions, deletions, overwritten runs
     let multi = if thorough { 3000 } else { 300 };
@@ -2339,6 +2536,7 @@ impl Prop for P {
             Some("mut") => exec_mut(&t[1..]),
             Some("raw") => exec_raw(&t[1..]),
             Some("fri") => exec_fri(&t[1..]),
+            Some("frih") => exec_frih(&t[1..]),
             Some("mrk") => exec_mrk(&t[1..]),
             _ => Outcome::ok("bad-op"),
         }
